@@ -252,6 +252,13 @@ func check(h hist, steps []step) ([]viol, stats) {
 			add("C01:process-panic", "txn %d made UpdateState panic: %s", i, s.res.Panic)
 		}
 		// ---- C01: supply
+		if applied && t.Type == 1000 && s.res.Rec.Class == "ok" {
+			for _, tr := range s.res.Rec.Signed {
+				if tr.To >= chainh.UpperBase || tr.To < 0 {
+					add("C01:signed-transfer-to-noncanonical-recipient", "txn %d was applied although the contract signed a transfer (%d -> %d, %d) to a recipient id that is not a canonical lower-case hash", i, tr.From, tr.To, tr.Amt)
+				}
+			}
+		}
 		upperDest := -1
 		for _, tr := range eff {
 			if tr.To >= chainh.UpperBase && tr.Amt != 0 {
@@ -874,7 +881,11 @@ func genHist(r *vh.Rand, p profile) hist {
 						}
 					case 1000:
 						if t.To == chainh.IDScript {
-							t.Script.Ops = append(t.Script.Ops, chainh.ScOp{K: "t", From: chainh.IDScript, To: chainh.UpperBase + d, Amt: uint64(r.Range(1, 100))})
+							k := "t"
+							if r.Bool() {
+								k = "s" // a signed transfer: AddSignedTransfer takes any destination, updateState must refuse it
+							}
+							t.Script.Ops = append(t.Script.Ops, chainh.ScOp{K: k, From: chainh.IDScript, To: chainh.UpperBase + d, Amt: uint64(r.Range(0, 100))})
 						}
 					}
 				}
